@@ -118,6 +118,26 @@ def run(chk):
         for a in range(rng[0], rng[1]):
             if 0 <= a < 256:
                 REV[T[a]] = a
+        # inserts made by the initialiser itself, outside the derivation closure (aliases appended afterwards): a later insert
+        # for a key the derivation produced replaces the derived code
+        ib = f.bodies.get(init)
+        extra = [t for bi, t in ib.calls() if (t["callee"].get("resolved") or "").endswith("HashMap::<K, V, S, A>::insert")] if ib is not None else []
+        if extra:
+            pairs = []
+            for bi, k, s2 in ib.stmts():
+                if s2["k"] == "assign" and s2["rv"]["k"] == "agg" and s2["rv"].get("ak") == "tuple" and len(s2["rv"]["ops"]) == 2:
+                    vv = [o.get("const", {}).get("val") for o in s2["rv"]["ops"]]
+                    if None not in vv:
+                        pairs.append((vv[0], vv[1]))
+            tvals = {(ord(c) if isinstance(c, str) else c): a for c, a in REV.items()}
+            clash = [(kk, vv2) for kk, vv2 in pairs if kk in tvals and tvals[kk] != vv2]
+            ok = bool(pairs) and not clash
+            chk.obligation(ok)
+            if not ok:
+                chk.finding("%s|reverse-map-extra-insert" % rev, rule="R-CONV-SHAPE", where="src/parsers/%s" % name, fn=rev,
+                            what=("the initialiser inserts further entries after the derivation loop and %s: code(s) %s no longer come back from their own character" % (
+                                "some replace derived entries" if clash else "their keys are not constants that can be compared with the table",
+                                ", ".join("0x%02x" % tvals[kk] for kk, _ in clash) or "?")))
         # converter shapes
         shape_ok = True
         for meth, want in (("convert_from_unicode", rev.split("::")[-1]), ("convert_to_unicode", tab.split("::")[-1])):
